@@ -256,9 +256,13 @@ def gen_cases(rnd, tier):
     cases = []
     # 1. every scalar type x boundary lengths x forms
     # a few mid-size counts as well: bulk code paths tend to switch on element counts like 1024 or 4096
-    lens = LENS_Q + LENS_BOUNDARY + [1023, 1024, 4097] + (LENS_BIG if tier == "thorough" else [])
+    base_lens = LENS_Q + LENS_BOUNDARY + [1023, 1024, 4097]
+    width = {"U2": 2, "I2": 2, "U4": 4, "I4": 4, "F4": 4, "U8": 8, "I8": 8, "F8": 8}
     for kind in valrig.SCALARS:
-        for n in lens:
+        # thorough: element counts whose BYTE length crosses the two-to-three length-byte boundary (65535/65536)
+        w = width.get(kind, 1)
+        big = ([65536 // w - 1, 65536 // w, 65536 // w + 1] if w > 1 else LENS_BIG) if tier == "thorough" else []
+        for n in base_lens + big:
             reps = 3 if n <= 17 else 1
             for _ in range(reps):
                 t = ("scal", kind, -1)
@@ -555,7 +559,7 @@ def run(tier, replay=None):
     replay_known(report, "C01", KNOWN, evaluate)
     fill_coverage(report, cases, obs, stats,
                   "cases = (variable type, plain python value, trailing bytes): every scalar class x element counts "
-                  "{0,1,2,3,5,17,254..257" + (",65534..65537" if tier == "thorough" else "") + "} x input forms, numeric boundaries of each width "
+                  "{0,1,2,3,5,17,254..257" + (", counts with 65535/65536/65537+ bytes" if tier == "thorough" else "") + "} x input forms, numeric boundaries of each width "
                   "(and just outside), all 256 byte values in text/binary, count-limited types at count-1/count/count+1, arrays at "
                   "length-byte boundaries, random nested record/array/dynamic types to depth 6; distinct = distinct Coq case literal; "
                   "non-trivial = value accepted and encoding longer than an empty item")
